@@ -35,7 +35,7 @@ func init() {
 		id := fmt.Sprintf("C%02d", i)
 		Plans[id] = &PropertyPlan{ID: id, Prefixes: []string{"H_" + id + "_"}, QuickSec: 200, ThoroSec: 1500}
 	}
-	Plans["C01"].QuickSec = 420
+	Plans["C01"].QuickSec = 600
 	Plans["C03"].QuickSec = 420
 	Plans["C04"].QuickSec = 300
 	Plans["C12"].QuickSec = 300
@@ -86,6 +86,7 @@ type ReplayResult struct {
 	Diverged string   `json:"diverged"`
 	Seconds  float64  `json:"seconds"`
 	TimedOut bool     `json:"timed_out"`
+	Notes    []string `json:"notes"`
 }
 
 type CheckConfig struct {
